@@ -15,62 +15,121 @@ fn ap(s: &str) -> AccessPolicy {
     AccessPolicy::parse(s).unwrap()
 }
 
+/// Reference semantics, independent of the crate's parser, operators and DNF: the policy strings of this file are
+/// parsed by a small recursive-descent parser of the documented grammar
+///   or := and ('||' and)* ;  and := atom ('&&' atom)* ;  atom := '(' or ')' | '*' | DIM '::' NAME
+#[derive(Clone, Debug)]
+enum RefPol {
+    Star,
+    Term(String, String),
+    And(Box<RefPol>, Box<RefPol>),
+    Or(Box<RefPol>, Box<RefPol>),
+}
+struct RefParser<'a> { s: &'a [u8], i: usize }
+impl<'a> RefParser<'a> {
+    fn ws(&mut self) { while self.i < self.s.len() && self.s[self.i] == b' ' { self.i += 1 } }
+    fn eat(&mut self, t: &str) -> bool {
+        self.ws();
+        if self.s[self.i..].starts_with(t.as_bytes()) { self.i += t.len(); true } else { false }
+    }
+    fn or(&mut self) -> RefPol {
+        let mut l = self.and();
+        while self.eat("||") { let r = self.and(); l = RefPol::Or(Box::new(l), Box::new(r)) }
+        l
+    }
+    fn and(&mut self) -> RefPol {
+        let mut l = self.atom();
+        while self.eat("&&") { let r = self.atom(); l = RefPol::And(Box::new(l), Box::new(r)) }
+        l
+    }
+    fn atom(&mut self) -> RefPol {
+        if self.eat("(") { let p = self.or(); assert!(self.eat(")"), "reference parser: missing ')'"); return p }
+        if self.eat("*") { return RefPol::Star }
+        self.ws();
+        let st = self.i;
+        while self.i < self.s.len() && !b"()&|".contains(&self.s[self.i]) { self.i += 1 }
+        let tok = std::str::from_utf8(&self.s[st..self.i]).unwrap();
+        let (d, n) = tok.split_once("::").unwrap_or_else(|| panic!("reference parser: not an attribute: {tok:?}"));
+        RefPol::Term(d.trim().to_string(), n.trim().to_string())
+    }
+}
+fn ref_parse(s: &str) -> RefPol {
+    let mut p = RefParser { s: s.as_bytes(), i: 0 };
+    let r = p.or();
+    p.ws();
+    assert!(p.i == s.len(), "reference parser: trailing input in {s:?}");
+    r
+}
+fn ref_dnf(p: &RefPol) -> Vec<Vec<(String, String)>> {
+    match p {
+        RefPol::Star => vec![vec![]],
+        RefPol::Term(d, n) => vec![vec![(d.clone(), n.clone())]],
+        RefPol::Or(a, b) => [ref_dnf(a), ref_dnf(b)].concat(),
+        RefPol::And(a, b) => {
+            let (x, y) = (ref_dnf(a), ref_dnf(b));
+            x.iter().flat_map(|l| y.iter().map(move |r| [l.as_slice(), r.as_slice()].concat())).collect()
+        }
+    }
+}
 /// name-level cover relation of the statement on the test structure (SEC: LOW < TOP hierarchy, DPT: anarchy)
-fn term_covers(user: &QualifiedAttribute, conj: &[QualifiedAttribute]) -> bool {
-    match conj.iter().find(|q| q.dimension == user.dimension) {
+fn term_covers(user: &(String, String), conj: &[(String, String)]) -> bool {
+    match conj.iter().find(|q| q.0 == user.0) {
         None => true,
         Some(q) => {
-            if user.dimension == "SEC" {
+            if user.0 == "SEC" {
                 let rank = |n: &str| if n == "LOW" { 0 } else { 1 };
-                rank(&q.name) <= rank(&user.name)
+                rank(&q.1) <= rank(&user.1)
             } else {
-                q.name == user.name
+                q.1 == user.1
             }
         }
     }
 }
-fn covers(user: &AccessPolicy, conj: &[QualifiedAttribute]) -> bool {
+fn covers(user: &RefPol, conj: &[(String, String)]) -> bool {
     match user {
-        AccessPolicy::Broadcast => true,
-        AccessPolicy::Term(t) => term_covers(t, conj),
-        AccessPolicy::Conjunction(a, b) => covers(a, conj) && covers(b, conj),
-        AccessPolicy::Disjunction(a, b) => covers(a, conj) || covers(b, conj),
+        RefPol::Star => true,
+        RefPol::Term(d, n) => term_covers(&(d.clone(), n.clone()), conj),
+        RefPol::And(a, b) => covers(a, conj) && covers(b, conj),
+        RefPol::Or(a, b) => covers(a, conj) || covers(b, conj),
     }
 }
-fn authorized(user: &AccessPolicy, enc: &AccessPolicy) -> bool {
-    enc.to_dnf().iter().any(|c| covers(user, c))
+fn authorized(user: &str, enc: &str) -> bool {
+    ref_dnf(&ref_parse(enc)).iter().any(|c| covers(&ref_parse(user), c))
 }
 
 const USER_POLICIES: &[&str] = &[
     "*", "SEC::LOW", "SEC::TOP", "DPT::FIN", "DPT::HR", "SEC::LOW && DPT::FIN", "SEC::TOP && DPT::FIN", "SEC::TOP && (DPT::FIN || DPT::HR)",
     "DPT::FIN || DPT::MKG", "(SEC::LOW && DPT::HR) || (SEC::TOP && DPT::MKG)", "SEC::TOP || DPT::RD", "SEC::LOW && (DPT::FIN || (DPT::HR))",
+    // '*' as an operand: neutral in a conjunction, absorbing in a disjunction
+    "SEC::LOW && *", "DPT::FIN || *", "(*) && DPT::HR",
 ];
 const ENC_POLICIES: &[&str] = &[
     "*", "SEC::LOW", "SEC::TOP", "DPT::FIN", "DPT::HR", "DPT::MKG", "SEC::LOW && DPT::FIN", "SEC::TOP && DPT::FIN", "SEC::TOP && DPT::HR",
     "SEC::LOW && DPT::MKG", "DPT::FIN || DPT::HR", "(SEC::TOP && DPT::FIN) || (SEC::LOW && DPT::RD)", "SEC::TOP && (DPT::MKG || DPT::DEV)",
     // a conjunction that is a sub-conjunction of another one
     "DPT::FIN || (DPT::FIN && SEC::TOP)", "SEC::LOW || (SEC::LOW && DPT::HR)",
+    "SEC::TOP && *", "DPT::HR || *", "(*) && SEC::TOP && DPT::FIN", "(SEC::TOP && DPT::HR) || (*)",
 ];
 
-// @obl props=C01,C02,C09,C11 tier=quick fn=api::Covercrypt::decaps shape="test structure (SEC hierarchy with a hybridized attribute, DPT anarchy), 12 user policies x 15 encryption policies, real cryptography"
+// @obl props=C01,C02,C09,C11 tier=quick fn=api::Covercrypt::decaps shape="test structure (SEC hierarchy with a hybridized attribute, DPT anarchy), 15 user policies x 19 encryption policies (with '*' as an operand), expected outcome from an independent reference parser and cover relation, real cryptography"
 #[test]
 fn e2e__decaps_iff_cover_relation() {
     let cc = Covercrypt::default();
     let (mut msk, mpk) = cc_keygen(&cc, false).unwrap();
     let mut n = 0u64;
-    let encs: Vec<_> = ENC_POLICIES.iter().map(|e| (ap(e), cc.encaps(&mpk, &ap(e)).unwrap_or_else(|err| panic!("C09: encapsulating for '{e}' (every targeted right is published) must succeed: {err}")))).collect();
+    let encs: Vec<_> = ENC_POLICIES.iter().map(|e| (*e, cc.encaps(&mpk, &ap(e)).unwrap_or_else(|err| panic!("C09: encapsulating for '{e}' (every targeted right is published) must succeed: {err}")))).collect();
     for u in USER_POLICIES {
         let usk = cc.generate_user_secret_key(&mut msk, &ap(u)).unwrap();
         for (e, (ss, enc)) in &encs {
             let got = cc.decaps(&usk, enc).unwrap();
-            if authorized(&ap(u), e) {
-                vchk!(got.as_ref() == Some(ss), "C01: key for '{u}' must open the encapsulation for '{e:?}' to the encapsulated secret (got {})", if got.is_some() { "another secret" } else { "nothing" });
+            if authorized(u, e) {
+                vchk!(got.as_ref() == Some(ss), "C01: key for '{u}' must open the encapsulation for '{e}' to the encapsulated secret (got {})", if got.is_some() { "another secret" } else { "nothing" });
             } else {
-                vchk!(got.is_none(), "C02: key for '{u}' must not open the encapsulation for '{e:?}'");
+                vchk!(got.is_none(), "C02: key for '{u}' must not open the encapsulation for '{e}'");
             }
             // hybridized iff every target right is hybridized: only SEC::TOP is hybridized in the test structure
-            let all_hyb = e.to_dnf().iter().all(|c| c.iter().any(|q| q.dimension == "SEC" && q.name == "TOP"));
-            vchk!(matches!(enc.encapsulations, Encapsulations::HEncs(_)) == all_hyb, "C11: the encapsulation for '{e:?}' is hybridized iff every targeted right is");
+            let all_hyb = ref_dnf(&ref_parse(e)).iter().all(|c| c.iter().any(|q| q.0 == "SEC" && q.1 == "TOP"));
+            vchk!(matches!(enc.encapsulations, Encapsulations::HEncs(_)) == all_hyb, "C11: the encapsulation for '{e}' is hybridized iff every targeted right is");
             n += 1;
         }
     }
@@ -598,6 +657,20 @@ fn header__roundtrip_authentication_and_secret() {
             vchk!(c2.secret == secret, "C13: a deserialized header yields the same secret");
             n += 1;
         }
+    }
+    // every metadata length around the boundaries of the LEB128 length prefix of the encrypted metadata (1 -> 2 bytes at
+    // 128, 2 -> 3 bytes at 16384; nonce + tag add 28 bytes): serialized form, round-trip, decryption
+    for len in (0..=160usize).chain(16350..=16360) {
+        let m: Vec<u8> = (0..len).map(|i| i as u8).collect();
+        let (secret, hdr) = EncryptedHeader::generate(&cc, &mpk, &ap("SEC::LOW && DPT::FIN"), Some(&m), None).unwrap();
+        let bytes = hdr.serialize().unwrap();
+        let back = EncryptedHeader::deserialize(&bytes);
+        vchk!(bytes.len() == hdr.length() && back.as_ref().map_or(false, |b| b == &hdr), "C12/C13: a valid header with {len} bytes of metadata does not survive its serialized form ({})", back.as_ref().err().map_or("different object".to_string(), |e| e.to_string()));
+        if let Ok(b) = back {
+            let clear = b.decrypt(&cc, &ok, None);
+            vchk!(matches!(&clear, Ok(Some(c)) if c.secret == secret && c.metadata.as_deref().unwrap_or(&[]) == &m[..]), "C12/C13: a deserialized header with {len} bytes of metadata does not decrypt to the same secret and metadata");
+        }
+        n += 1;
     }
     println!("VERIF-COUNT header__roundtrip_authentication_and_secret {n}");
     done();
